@@ -215,9 +215,14 @@ impl W {
     }
 }
 
-/// the stamp (time, replica) the write was issued with, found by its unique payload
-fn stamp_of(w: &W, deltas: &[ReplicationDelta], seen_tombs: &mut Vec<(String, u64, u64)>) -> Option<(u64, u64)> {
-    let mut best: Option<(u64, u64)> = None;
+/// the stamp (time, replica) the write was issued with.  SET / HSET: found by the unique payload.
+/// DEL: a tombstone has no payload — it is the tombstone of that key with the smallest stamp above
+/// the previous acknowledged write of the key (`prev`); tombstones in between that belong to no
+/// acknowledged write exist (a DEL of an already deleted key answers 0 and still re-stamps the
+/// tombstone).  If there is none above `prev` (only possible when the property is violated) the
+/// largest remaining one is taken, so that the monotonicity oracle reports it.
+fn stamp_of(w: &W, deltas: &[ReplicationDelta], prev: Option<(u64, u64)>, seen_tombs: &mut Vec<(String, u64, u64)>) -> Option<(u64, u64)> {
+    let mut hits: Vec<(u64, u64)> = Vec::new();
     for d in deltas {
         if d.key != w.key() {
             continue;
@@ -234,14 +239,19 @@ fn stamp_of(w: &W, deltas: &[ReplicationDelta], seen_tombs: &mut Vec<(String, u6
             _ => None,
         };
         if let Some(s) = hit {
-            // a register keeps its stamp wherever it is copied: all hits agree; take the smallest
-            // for DEL (the first unseen tombstone)
-            best = Some(match best {
-                Some(b) if b <= s => b,
-                _ => s,
-            });
+            hits.push(s);
         }
     }
+    hits.sort();
+    hits.dedup();
+    let best = match w {
+        // a register keeps its stamp wherever it is copied: all hits agree
+        W::Set(..) | W::HSet(..) => hits.first().copied(),
+        W::Del(_) => match prev {
+            Some(p) => hits.iter().copied().find(|s| *s > p).or(hits.last().copied()),
+            None => hits.first().copied(),
+        },
+    };
     if let (W::Del(k), Some(s)) = (w, best) {
         seen_tombs.push((k.clone(), s.0, s.1));
     }
@@ -294,6 +304,8 @@ pub async fn boot_history(out: &mut Out, rng: &mut Rng, graceful2: bool, wal_onl
     let mut acked: Vec<(usize, W, Option<(u64, u64)>)> = Vec::new();
     let mut text = String::new();
     let mut seen_tombs: Vec<(String, u64, u64)> = Vec::new();
+    // stamp of the previous acknowledged write per key (to tell a DEL's tombstone from older ones)
+    let mut last_on_key: std::collections::HashMap<String, (u64, u64)> = Default::default();
     let mut ok = true;
     for inc in 1..=3usize {
         let mut server = None;
@@ -416,7 +428,10 @@ pub async fn boot_history(out: &mut Out, rng: &mut Rng, graceful2: bool, wal_onl
             if *i != inc {
                 continue;
             }
-            *st = stamp_of(w, &deltas, &mut seen_tombs);
+            *st = stamp_of(w, &deltas, last_on_key.get(w.key()).copied(), &mut seen_tombs);
+            if let Some(x) = *st {
+                last_on_key.insert(w.key().to_string(), x);
+            }
             if st.is_none() {
                 out.violation("C08:boot:acked-write-not-persisted", &format!("incarnation {}: the acknowledged {} (WAL fsync = always) is neither in the WAL nor in the object store after the process ended — the next start-up cannot advance its clock past that write", inc, w.show()), json!({"history": text}));
                 ok = false;
